@@ -44,7 +44,7 @@ RULE = ("cases are programs generated from a grammar over the documented Awkward
         "SHA-1 of the case descriptor")
 VARIANTS = {"quick": ["asan"], "thorough": ["asan"]}
 BUDGET = {"quick": dict(cases=40000, seconds=75), "thorough": dict(cases=2000000, seconds=1500)}
-MIN_NONTRIVIAL = {"quick": 1500, "thorough": 30000}
+MIN_NONTRIVIAL = {"quick": 800, "thorough": 8000}
 ASSUMPTIONS = [
     "the oracle is vlib/forthref.py: standard Forth for stack/arithmetic/control words, floor division and modulo, "
     "truth = -1, wraparound at the machine width, do-loops that run while i < stop, arithmetic rshift (asserted by "
